@@ -42,7 +42,7 @@ Definition run (req : sexp) : sexp :=
   | SList [SNum 4; s] => or_bad (odo x <- as_str s ;; Some (s_res s_name (name_from_str x)))
   | SList [SNum 5; n] => or_bad (odo x <- as_name n ;; Some (s_res s_str (name_to_str x)))
   | SList [SNum 6; n] => or_bad (odo x <- as_name n ;; Some (s_res s_str (name_to_canonical_uri x)))
-  | SList [SNum 7; SBytes w] => s_res (s_pair s_name s_nat) (name_decode w)
+  | SList [SNum 7; SBytes w] => s_res (s_pair s_name SNum) (name_decode w)
   | SList [SNum 8; n] => or_bad (odo x <- as_name n ;; Some (SBytes (name_encode x)))
   | SList [SNum 9; n] => or_bad (odo x <- as_ns_name n ;; Some (s_res s_name (name_normalize x)))
   | SList [SNum 10; a; b] => or_bad (odo x <- as_name a ;; odo y <- as_name b ;; Some (s_bool (name_is_prefix x y)))
